@@ -9,7 +9,7 @@ from typing import Iterator, Callable
 from numpy import nan
 
 from .._field import Field
-from .._numpy_utils import Array, make_array
+from .._numpy_utils import Array, make_array, subtract
 from .._matching import find_matches_by_name
 from ._table import Table
 from ..protocols import FieldData
@@ -73,5 +73,5 @@ def _subtract(fields1: TabularFields, fields2: TabularFields) -> TabularFields:
     }
     for fname in matching_fields:
         for i, (a, b) in enumerate(zip(field_map_1[fname], field_map_2[fname])):
-            diff_fields[fname][i] = a - b
+            diff_fields[fname][i] = subtract(a, b)
     return TabularFields(domain=diff_domain, fields=diff_fields)
